@@ -1,23 +1,28 @@
 """GUARD-live / CMP rules on the six lookups: every hit path re-checks full liveness of the entry it
 returns, with the exact (inclusive deadline, strict watermark) comparisons and operand roles."""
 from .core import RuleResult, CheckFailure
+from .roles import named, get_roles, CHAN_SEND
 from .kernel import norm
 from .symex import fmt, subterms, PathLimit, OPTION
 
-LOOKUPS = [
+def lookup_table(ctx):
     # (function, cache kind, result kind)
-    ('unsync::cache::Cache::get', 'unsync', 'option'),
-    ('unsync::cache::Cache::contains_key', 'unsync', 'bool'),
-    ('<unsync::iter::Iter as std::iter::Iterator>::next', 'unsync', 'option'),
-    ('sync::base_cache::BaseCache::get_with_hash', 'sync', 'option'),
-    ('sync::base_cache::BaseCache::contains_key', 'sync', 'bool'),
-    ('<sync::iter::Iter as std::iter::Iterator>::next', 'sync', 'option'),
-]
-# public wrappers must be thin delegations to the analysed lookups
-PUBLIC_WRAPPERS = {
-    'sync::cache::Cache::get': 'sync::base_cache::BaseCache::get_with_hash',
-    'sync::cache::Cache::contains_key': 'sync::base_cache::BaseCache::contains_key',
-}
+    return [
+        ('unsync::cache::Cache::get', 'unsync', 'option'),
+        ('unsync::cache::Cache::contains_key', 'unsync', 'bool'),
+        ('<unsync::iter::Iter as std::iter::Iterator>::next', 'unsync', 'option'),
+        (named(ctx, 'sync.get_lookup'), 'sync', 'option'),
+        (named(ctx, 'sync.contains_lookup'), 'sync', 'bool'),
+        ('<sync::iter::Iter as std::iter::Iterator>::next', 'sync', 'option'),
+    ]
+
+
+def public_wrappers(ctx):
+    # public wrappers must be thin delegations to the analysed lookups
+    return {
+        'sync::cache::Cache::get': named(ctx, 'sync.get_lookup'),
+        'sync::cache::Cache::contains_key': named(ctx, 'sync.contains_lookup'),
+    }
 
 MAP_LOOKUPS = ('std::collections::HashMap::get', 'std::collections::HashMap::get_mut', 'dashmap::DashMap::get',
                'dashmap::DashMap::get_mut')
@@ -155,8 +160,12 @@ class LookupAnalysis:
         def pol(n, b, d):
             # inline cache-level helpers only; eviction / recording / maintenance stay opaque events
             last = n.split('::')[-1]
-            if n in ('unsync::cache::Cache::evict_expired', 'unsync::cache::Cache::evict_lru_entries',
-                     'unsync::cache::Cache::record_hit') or 'record_read_op' in n or n.endswith('get_with_hash::{closure#0}'):
+            if n in (named(ctx, 'unsync.evict_expired'), named(ctx, 'unsync.evict_lru')):
+                return False
+            # recording a hit / read is an event of the lookup, not part of its liveness logic: functions that move deque nodes or
+            # send to a channel stay opaque
+            R_ = get_roles(ctx)
+            if (ctx.prog.reachable_from([n]) & R_.move) or any(x in CHAN_SEND for y in ctx.prog.reachable_from([n]) for x in R_.ext_calls.get(y, ())):
                 return False
             return None
         sx = ctx.symex(inline_depth=5, inline_pred=pol, loop_visits=1 if 'Iterator' in nid else 2)
@@ -210,7 +219,7 @@ def make_guard_rule(name, atoms, statement):
         r = RuleResult(name, statement)
         has_sync = any(n.startswith('sync::') for n in ctx.prog.bodies)
         nlook = 0
-        for nid, kind, rkind in LOOKUPS:
+        for nid, kind, rkind in lookup_table(ctx):
             if kind == 'sync' and not has_sync:
                 continue
             la = _lookup_analysis(ctx, nid, kind, rkind)
@@ -298,7 +307,7 @@ def make_guard_rule(name, atoms, statement):
             if hits == 0:
                 raise CheckFailure('%s: no hit path found in %s (lookup role lost?)' % (name, nid))
         # public wrappers delegate
-        for w, target in PUBLIC_WRAPPERS.items():
+        for w, target in public_wrappers(ctx).items():
             if w in ctx.prog.bodies:
                 b = ctx.prog.bodies[w]
                 calls = [ctx.prog.call_targets(b, t)[0] for _, t in b.calls()]
@@ -350,7 +359,7 @@ def rule_miss_reasons(ctx):
     r = RuleResult('MISS-has-cause', 'every non-hit path of a lookup is explained by: the map has no entry for the key, the iterator '
                    'is exhausted, or an expiry / watermark comparison on that entry is true -- nothing else hides a live entry')
     has_sync = any(n.startswith('sync::') for n in ctx.prog.bodies)
-    for nid, kind, rkind in LOOKUPS:
+    for nid, kind, rkind in lookup_table(ctx):
         if kind == 'sync' and not has_sync:
             continue
         la = _lookup_analysis(ctx, nid, kind, rkind)
